@@ -15,7 +15,7 @@ import (
 
 // C19: mDNS via Avahi survives daemon restarts without stale or lost announcements.
 
-var Events = []string{"down", "up", "tick", "ann1", "ann2", "unann", "browse", "shutdown"}
+var Events = []string{"down", "up", "tick", "ann1", "ann2", "unann", "browse", "shutdown", "restart"}
 
 type c19world struct {
 	d        *fakeavahi.Daemon
@@ -27,6 +27,8 @@ type c19world struct {
 	setupsAtShutdown int
 	browsersAtShutdown, groupsAtShutdown int
 	nBrowse  int
+	cb       func(el map[string]string, name, host string, addrs []net.IP, port int, remove bool)
+	restarts int
 }
 
 func txtOf(tag string) []string { return []string{"txtvers=1", "id=me", "path=/ship/", "ski=abcd", "register=" + tag} }
@@ -56,6 +58,13 @@ func (w *c19world) apply(ev string) {
 			Txt: [][]byte{[]byte("txtvers=1"), []byte("id=" + name), []byte("path=/ship/"), []byte("ski=" + name), []byte("register=false")}}
 		w.d.Resolvable = append(w.d.Resolvable, svc)
 		w.d.Push(true, svc)
+	case "restart":
+		// the application starts the provider again after a manual shutdown; nothing is announced until it asks for it
+		if w.shutReturned && w.p.Start(true, w.cb) {
+			w.shut, w.shutReturned = false, false
+			w.want = ""
+			w.restarts++
+		}
 	case "shutdown":
 		w.shut = true
 		done := false
@@ -132,9 +141,10 @@ func Build() func(hist []string) hx.GView {
 		w := &c19world{d: fakeavahi.TheDaemon()}
 		w.d.Up()
 		w.p = mdns.NewAvahiProvider([]int32{fakeavahi.InterfaceUnspec})
-		ok := w.p.Start(true, func(el map[string]string, name, host string, addrs []net.IP, port int, remove bool) {
+		w.cb = func(el map[string]string, name, host string, addrs []net.IP, port int, remove bool) {
 			w.resolved = append(w.resolved, fmt.Sprintf("%s:%v", name, remove))
-		})
+		}
+		ok := w.p.Start(true, w.cb)
 		if !ok {
 			simrt.Fail("engine|start", "AvahiProvider.Start failed with a reachable daemon")
 		}
@@ -154,6 +164,9 @@ func Build() func(hist []string) hx.GView {
 			if e == "shutdown" && w.shut {
 				continue
 			}
+			if e == "restart" && (!w.shutReturned || w.restarts >= 1 || !w.d.AvahiUp || !w.d.DBusUp) {
+				continue
+			}
 			if w.shut && (e == "ann1" || e == "ann2" || e == "unann") {
 				continue
 			}
@@ -162,8 +175,8 @@ func Build() func(hist []string) hx.GView {
 			}
 			en = append(en, e)
 		}
-		key := fmt.Sprintf("%s|up=%v|want=%s|shut=%v|lb=%d|lg=%d|lis=%d|setups>%v|tm=%d|nb=%d", c19snap.Snap(w.p), w.d.AvahiUp, w.want, w.shutReturned, w.d.LiveBrowsers(), len(w.d.LiveGroups()), w.listeners(),
-			w.shutReturned && w.d.Setups != w.setupsAtShutdown, len(simrt.Timers()), min(w.nBrowse, 2))
+		key := fmt.Sprintf("%s|up=%v|want=%s|shut=%v|lb=%d|lg=%d|lis=%d|setups>%v|tm=%d|nb=%d|rs=%d", c19snap.Snap(w.p), w.d.AvahiUp, w.want, w.shutReturned, w.d.LiveBrowsers(), len(w.d.LiveGroups()), w.listeners(),
+			w.shutReturned && w.d.Setups != w.setupsAtShutdown, len(simrt.Timers()), min(w.nBrowse, 2), w.restarts)
 		obs := strings.Join(w.d.Log, ",")
 		// probe (the state key is taken, successors are built by replay): in every state with a reachable daemon and a
 		// live browser a service resolved now must reach the resolver callback - states that look alike may still
